@@ -1541,9 +1541,11 @@ def c05(report, rng, tier, findings):
                    "counted through the per-stream rules")
     if report.extra['cache_hits_taken_with_caching_on'] == 0:
         report.notes.append('no cache hit was taken: the comparison is vacuous')
-    return ['EqlModel.Props.C05', 'EqlModel.Props.C20'], [
-        "proved: the cache index (C20) and prefix-uniformity of single-key caches; the evaluator's use of the index is decided "
-        "by this differential check only (no cache-aware evaluator model yet)",
+    return ['EqlModel.Props.C05', 'EqlModel.Props.C20', 'EqlModel.Lemmas.MachineTree', 'EqlModel.Lemmas.MachineTreeTop'], [
+        "proved: the cache index (C20), prefix-uniformity of single-key caches, and THE EVALUATOR with the cache enabled for "
+        "every single-variable and/or tree (c05_single_variable_tree: L2 machine = L1 rows on every evaluation); for several "
+        "variables, flatten, for_all, sub-queries and rule trees the evaluator's use of the index is decided by this "
+        "differential check (caching on vs off vs oracle vs the L2 machine)",
         "known findings C05-F1 (non-prefix-uniform tries), C05-F2 (flatten conditions), C05-F3 (and_ with for_all over the "
         "universal variable only), C05-F4 (re-evaluated rule trees with alternatives)"]
 
